@@ -65,7 +65,9 @@ pub struct ScriptTemplate(Vec<MatchToken>);
 impl ScriptTemplate {
     fn map_string_to_match_token(code: &str) -> Result<MatchToken, ScriptTemplateErrors> {
         // Number OP_CODES
-        if code.len() < 3 {
+        // The numeric aliases are the decimal numbers 0..16 as Script::from_asm_string reads them;
+        // two-digit hex data such as 05 is data
+        if code.len() < 3 && !(code.len() == 2 && code.starts_with('0')) {
             if let Ok(num_code) = u8::from_str(code) {
                 match num_code {
                     0 => return Ok(MatchToken::OpCode(OP_0)),
@@ -133,7 +135,7 @@ impl ScriptTemplate {
     }
 
     pub fn from_asm_string_impl(asm: &str) -> Result<ScriptTemplate, ScriptTemplateErrors> {
-        let tokens: Result<Vec<_>, _> = asm.split(' ').map(ScriptTemplate::map_string_to_match_token).collect();
+        let tokens: Result<Vec<_>, _> = asm.split_whitespace().map(ScriptTemplate::map_string_to_match_token).collect();
 
         Ok(ScriptTemplate(tokens?))
     }
